@@ -61,17 +61,17 @@ Definition error_label (k : node_kind) (actual : string) (expected : option stri
   end.
 
 (* One collected error, reduced to what Display uses. *)
-Record entry := {
+Record fentry := {
   e_kind : node_kind;
   e_line_start : N;
   e_actual : string;
   e_expected : option string
 }.
 
-Definition entry_label (e : entry) : string := error_label (e_kind e) (e_actual e) (e_expected e).
+Definition entry_label (e : fentry) : string := error_label (e_kind e) (e_actual e) (e_expected e).
 
 (* the `else` branch of Display for ErrorReport (source unreadable) *)
-Definition fallback_display (rel_path : string) (errors : list entry) : string :=
+Definition fallback_display (rel_path : string) (errors : list fentry) : string :=
   match errors with
   | [] => ""
   | _ => "assert_struct! failed:" ++
